@@ -52,13 +52,23 @@ class Obj(object):
         object.__setattr__(self, "fresh", False)
 
     def __getattr__(self, name):  # convenience for contract lambdas
+        if name in Obj._INTERNAL:
+            raise AttributeError(name)
         f = object.__getattribute__(self, "fields")
         if name in f:
-            return f[name]
+            v = f[name]
+            if isinstance(v, Lazy):
+                v = v.force()
+            return v
         raise AttributeError("%s has no field %s" % (object.__getattribute__(self, "clsname"), name))
 
-    def __setattr__(self, name, value):  # ghost code may assign
-        self.fields[name] = value
+    _INTERNAL = ("fresh", "list_elem", "alloc_index", "cls", "clsname", "fields", "oid")
+
+    def __setattr__(self, name, value):  # ghost code may assign program fields
+        if name in Obj._INTERNAL:
+            object.__setattr__(self, name, value)
+        else:
+            self.fields[name] = value
 
     def __repr__(self):
         return "<%s#%d>" % (self.clsname, self.oid)
@@ -73,6 +83,51 @@ class Opt(object):
 
     def __repr__(self):
         return "Opt(%s,%s)" % (self.isnone, self.val)
+
+
+class OptObj(object):
+    """Optional object reference: None | obj, with a symbolic null flag (avoids forking on the shape)."""
+
+    def __init__(self, isnone, obj):
+        object.__setattr__(self, "isnone", isnone)
+        object.__setattr__(self, "obj", obj)
+
+    @property
+    def val(self):
+        return self.obj
+
+    def __getattr__(self, name):       # contract lambdas: fields of the referenced object (guard with is_none!)
+        return getattr(object.__getattribute__(self, "obj"), name)
+
+    def __repr__(self):
+        return "OptObj(%s,%r)" % (self.isnone, self.obj)
+
+
+class Lazy(object):
+    """A field whose shape is chosen (ctx.choose) only when it is first read.  Payloads must be immutable."""
+
+    def __init__(self, ctx, name, alternatives):
+        self.ctx = ctx
+        self.name = name
+        self.alternatives = alternatives    # list of thunks
+        self.forced = False
+        self.value = None
+
+    def force(self):
+        if not self.forced:
+            k = self.ctx.choose(len(self.alternatives), "lazy " + self.name)
+            self.ctx.symbols["lazy." + self.name] = _Const(k)
+            self.value = self.alternatives[k]()
+            self.forced = True
+        return self.value
+
+
+class _Const(object):
+    def __init__(self, v):
+        self.v = v
+
+    def model_value(self, m):
+        return self.v
 
 
 class Hole(object):
